@@ -196,6 +196,67 @@ theorem C20_bound_threaded (cfg : Cfg) (hmode : cfg.threaded = true)
     have := (le_lastIter D suf t0 hp).2 t ht
     omega
 
+/-! ## Queued output drains — empty pieces included -/
+
+/-- **C20: an empty queued piece is popped** by the first flush whose `send()` returns
+(`sent == len(mv)` is `0 == 0`), whatever is queued behind it. -/
+theorem C20_empty_piece_popped (maxSend a : Nat) (r : List Nat) :
+    flushPieces maxSend (some a) (0 :: r) = r := flush_empty_head maxSend a r
+
+/-- the trace model's `_num_buffer` is the number of queued pieces, along every piece-level trace -/
+theorem C20_counter_is_pieces (cfg : Cfg) (maxSend : Nat) (t0 : Int) (tr : List PEv) :
+    (prun cfg maxSend (pinit t0) tr).st.numBuffer = (prun cfg maxSend (pinit t0) tr).pieces.length :=
+  pinv_run cfg maxSend tr (pinit t0) (pinv_init t0)
+
+/-- **C20: queued output drains after finitely many writable events.**  However the
+output was cut into pieces — empty pieces alone, first, in between or last — on an open
+connection that is still being read, `weight pieces = Σ (len + 1)` writable reports in
+each of which the socket takes at least one byte leave the connection open with no piece
+queued and `has_buffer() = False`; from then on it is `IdleAt` its last flush and the
+bound theorems apply. -/
+theorem C20_empty_piece_drains (cfg : Cfg) (maxSend : Nat) (ws : List (Int × Nat)) :
+    ∀ (ps : PSt), PInv ps → ps.st.status = .open → ps.st.readsTorn = false →
+    (∀ w ∈ ws, 1 ≤ w.2) → weight ps.pieces ≤ ws.length →
+    (prun cfg maxSend ps (ws.map fun w => .clientWrite w.1 (some w.2))).st.status = .open ∧
+    (prun cfg maxSend ps (ws.map fun w => .clientWrite w.1 (some w.2))).pieces = [] ∧
+    (prun cfg maxSend ps (ws.map fun w => .clientWrite w.1 (some w.2))).st.hasBuffer = false := by
+  have key : ∀ (ws : List (Int × Nat)) (ps : PSt), ps.st.status = .open → ps.st.readsTorn = false →
+      (prun cfg maxSend ps (ws.map fun w => .clientWrite w.1 (some w.2))).st.status = .open ∧
+      (prun cfg maxSend ps (ws.map fun w => .clientWrite w.1 (some w.2))).pieces =
+        (ws.map (·.2)).foldl (fun ps a => flushPieces maxSend (some a) ps) ps.pieces := by
+    intro ws
+    induction ws with
+    | nil => intro ps ho _; exact ⟨ho, rfl⟩
+    | cons w r ih =>
+      intro ps ho hr
+      obtain ⟨h1, h2, h3⟩ := pstep_write cfg maxSend ps w.1 (some w.2) ho hr
+      have := ih _ h1 h2
+      simp only [List.map_cons, prun, List.foldl_cons] at this ⊢
+      rw [h3] at this
+      exact this
+  intro ps hinv ho hr ha hn
+  obtain ⟨k1, k2⟩ := key ws ps ho hr
+  have hd := flush_drains maxSend (ws.map (·.2)) ps.pieces
+    (by intro a h; obtain ⟨w, hw, rfl⟩ := List.mem_map.1 h; exact ha w hw) (by simpa using hn)
+  have hp : (prun cfg maxSend ps (ws.map fun w => .clientWrite w.1 (some w.2))).pieces = [] := by
+    rw [k2, hd]
+  refine ⟨k1, hp, ?_⟩
+  have := pinv_run cfg maxSend (ws.map fun w => PEv.clientWrite w.1 (some w.2)) ps hinv
+  unfold PInv at this
+  rw [hp] at this
+  simp [St.hasBuffer, this]
+
+/-- header block, empty body, more output, a trailing empty piece; 4-byte sends: it drains, and
+    2049 units after the last flush the threaded loop reaps the connection -/
+example : (prun (implCfg 2048 true) 4 (pinit 0)
+    ([.upstream 10 [5, 0, 3, 0]] ++ (List.range 5).map (fun (i : Nat) => PEv.clientWrite (20 + Int.ofNat i) (some 100))
+      ++ [.loopIter 2072, .loopIter 2073])) =
+    { st := { lastActivity := 24, numBuffer := 0, tick := 1, reaperRuns := 2, readsTorn := false,
+              status := .reaped 2073 }, pieces := [] } := by decide
+example : weight [5, 0, 3, 0] = 12 := by decide
+/-- had the empty piece not been popped, nothing behind it would ever go out -/
+example : flushPieces 4 (some 100) [0, 3] = [3] := by decide
+
 /-! ## Non-vacuity: every hypothesis has non-trivial inhabitants, and the conclusions fire -/
 
 /-- a session with timeout 2048 units: request bytes at 5200, a response queued by
